@@ -460,3 +460,65 @@ func (p *Program) ctxFactsRec(b *ssa.BasicBlock, depth int, onPath map[*ssa.Func
 	}
 	return dnfAnd(f, ctx)
 }
+
+// ---- boolean helper predicates ----
+//
+// A guard that was extracted into a helper (`if !tx.pageInBounds(id)`) appears as a call atom.  The facts
+// it establishes are the conditions under which the helper returns that value.
+
+// predicateDNF: the conditions under which the bool-returning function fn returns `want`.
+func predicateDNF(fn *ssa.Function, want bool) dnf {
+	var out dnf
+	for _, b := range fn.Blocks {
+		r, ok := b.Instrs[len(b.Instrs)-1].(*ssa.Return)
+		if !ok || len(r.Results) != 1 {
+			continue
+		}
+		v := retVal(r, 0)
+		here := blockFacts(b)
+		if c, isConst := constBoolOf(v); isConst {
+			if c == want {
+				out = dnfOr(out, here)
+			}
+			continue
+		}
+		out = dnfOr(out, dnfAnd(here, condDNF(v, want, 0, map[ssa.Value]bool{})))
+	}
+	return out
+}
+
+// expandPredicates conjoins, for every call atom of a small loop-free repository function returning a
+// single bool, the conditions under which it returns the value the atom asserts.
+func expandPredicates(p *Program, d dnf, depth int) dnf {
+	if depth > 2 {
+		return d
+	}
+	var out dnf
+	for _, cj := range d {
+		cur := dnf{cj}
+		for _, a := range cj {
+			c, ok := a.v.(*ssa.Call)
+			if !ok {
+				continue
+			}
+			sc := c.Common().StaticCallee()
+			if sc == nil || !p.InRepo(sc) || len(sc.Blocks) == 0 || !p.cheap(sc) {
+				continue
+			}
+			res := sc.Signature.Results()
+			if res.Len() != 1 {
+				continue
+			}
+			if bt, isBasic := res.At(0).Type().Underlying().(*types.Basic); !isBasic || bt.Kind() != types.Bool {
+				continue
+			}
+			pd := expandPredicates(p, predicateDNF(sc, a.pol), depth+1)
+			if len(pd) == 0 {
+				continue
+			}
+			cur = dnfAnd(cur, pd)
+		}
+		out = dnfOr(out, cur)
+	}
+	return out
+}
